@@ -56,7 +56,7 @@ def validate(number):
     and whether the check digit is correct and whether it starts with the
     right sequence."""
     number = compact(number)
-    if not isdigits(number) or int(number) <= 0:
+    if not isdigits(number) or not number.strip('0'):
         raise InvalidFormat()
     if not number.startswith('10'):
         raise InvalidFormat()
